@@ -10,7 +10,7 @@ def run(tier, seed):
     vlib.build_harness()
     # the C02 pattern universe, with the Ideal matches, supplies the "rule matches URL" facts
     sigma = ['"a"', '"b"', '"."', '"/"', '"^"', '"*"']
-    r = vlib.run_tlc("MC_C02", c02mod.CFG % (3 if tier == "quick" else 4, ", ".join(sigma)), wd, "mc_c02", workers=12, timeout=3000)
+    r = vlib.run_tlc("MC_C02", c02mod.CFG % (3 if tier == "quick" else 4, ", ".join(sigma), "TRUE", "FALSE", "FALSE"), wd, "mc_c02", workers=12, timeout=3000)
     if r["error"]:
         raise vlib.ToolError("M1 (pattern universe) failed: " + r["error"][:1500])
     v.add_tlc(r)
